@@ -356,6 +356,16 @@ def rule_xen(rep, prog, eff):
             ok = size_ok and range_ok and addr_ok and own_ok
             detail = f"size=in_page+len:{size_ok} mmap_range(guest_base+page_base, size, prot):{range_ok} addr=mapping+in_page:{addr_ok} owns grant+mapping:{own_ok}"
     rep("R17.5.window_form", b.key, ok, b.where(), detail)
+    # the trait entry point hands new_with its own arguments: the window is computed for THIS address and length
+    for g in prog.find(adt="mmap::xen::MmapXenGrant", trait="mmap::xen::MmapXenTrait", name="mmap_slice"):
+        n += 1
+        nw = [c for c in g.calls() if canon(c.target or "").endswith("MmapXenSlice::new_with")]
+        okw = False
+        if len(nw) == 1:
+            from ..pat import unref as _u
+            a = [_u(x) for x in nw[0].args()]
+            okw = is_call(a[0], "Clone::clone") and _u(a[0][2][0])[:2] == ('param', 1) and a[1][:2] == ('param', 2) and a[2][:2] == ('param', 3) and a[3][:2] == ('param', 4)
+        rep("R17.5.window_args", g.key, okw, g.where(), "mmap_slice(addr, prot, len) = MmapXenSlice::new_with(self.clone(), addr as usize, prot, len)")
     # pages() uses ceil
     b = prog.one(name="pages", path_re=r"^mmap::xen::pages$")
     n += 1
